@@ -377,7 +377,7 @@ pub fn c02(data: &[u8]) -> Option<c02::Case> {
         text.push_str(pick(&mut u, gen::WS_FRAGS)?);
     }
     let (max_vocab, graphemes) = fuzz_max_vocab(&mut u)?;
-    Some(c02::Case { table, text, max_vocab, graphemes, special })
+    Some(c02::Case { table, text, max_vocab, graphemes, special, trained: None })
 }
 
 pub fn c14(data: &[u8]) -> Option<c14::Case> {
